@@ -1,6 +1,7 @@
 package props
 
 import (
+	"bytes"
 	"crypto/ecdsa"
 	"crypto/elliptic"
 	crand "crypto/rand"
@@ -69,7 +70,11 @@ func runC15(c *ev.Case, ctx *lib.Ctx, sc c15Scenario, lc *logCapture) {
 		if m.Header.HopByHopID&panicMarker != 0 {
 			panic("handler blew up")
 		}
-		m.Answer(2001).WriteTo(dc)
+		a := m.Answer(2001)
+		if pl, err := m.FindAVP(9001, 0); err == nil {
+			a.AddAVP(pl) // echo the payload: the answer shows which bytes the server read for this request
+		}
+		a.WriteTo(dc)
 	})
 	srv := &diam.Server{Handler: mux, Dict: ctx.Parser}
 	ln := memnet.NewListener()
@@ -143,6 +148,31 @@ func runC15(c *ev.Case, ctx *lib.Ctx, sc c15Scenario, lc *logCapture) {
 	}
 	time.Sleep(5 * time.Second)
 	synctest.Wait()
+	// after the faults the healthy connections (and the fresh one) each deliver a request in two
+	// fragments, interleaved across the connections: every answer echoes its own request's payload
+	var echoConns []int
+	for i := 0; i <= sc.K; i++ {
+		if i == sc.K || !faulty[i] {
+			echoConns = append(echoConns, i)
+		}
+	}
+	echoReq := map[int][]byte{}
+	for _, i := range echoConns {
+		id := 0xB000 | uint32(i)
+		echoReq[i] = seqMsg(id, 100+4*i)
+		if i == sc.K {
+			postIDs = append(postIDs, id)
+		} else {
+			wantAnswered[i] = append(wantAnswered[i], id)
+		}
+		conns[i].Feed(echoReq[i][:70])
+	}
+	synctest.Wait()
+	for k := len(echoConns) - 1; k >= 0; k-- {
+		i := echoConns[k]
+		conns[i].Feed(echoReq[i][70:])
+		synctest.Wait()
+	}
 	desc := sc.String()
 	defer func() {
 		for _, mc := range conns {
@@ -190,6 +220,21 @@ func runC15(c *ev.Case, ctx *lib.Ctx, sc c15Scenario, lc *logCapture) {
 	if got := answered(conns[sc.K]); fmt.Sprint(got) != fmt.Sprint(postIDs) {
 		c.Fail(sig("listener-stopped-accepting"), nil, nil, "the connection opened after the faults got answers for %v, expected %v (accept calls: %d); %s", got, postIDs, ln.AcceptCalls(), desc)
 		return
+	}
+	for _, i := range echoConns {
+		msgs, _ := peer.SplitMessages(conns[i].Written())
+		want := peer.Find(echoReq[i], 9001)
+		ok := false
+		for _, m := range msgs {
+			if h := peer.Header(m); h.HopByHop == 0xB000|uint32(i) && h.Flags&0x80 == 0 {
+				got := peer.Find(m, 9001)
+				ok = len(got) == 1 && len(want) == 1 && bytes.Equal(got[0], want[0])
+			}
+		}
+		if !ok {
+			c.Fail(sig("healthy-connection-served-other-bytes"), nil, nil, "after the faults, connection %d delivered a request in two fragments while other connections did the same: the answer does not echo the payload that was sent on this connection; %s", i, desc)
+			return
+		}
 	}
 	reports := 0
 	for more := true; more; {
